@@ -74,8 +74,10 @@ def work(job):
         import srcexport, refine
         # (not for programs that read $last: when a pending action or condition observes the last byte may shift by one
         #  position — the documented slack — and a concrete run of the reference has to pick one)
-        if "$last" not in prog["src"] and refine.refine(prog["src"], base, timeout=25)["status"] == "closed":
-            ref_ps = srcexport.export_source(prog["src"])
+        # (the $last of a foreach's per-byte action is the byte being read: no slack there)
+        ps_, last_outside = srcexport.export_source_info(prog["src"])
+        if not last_outside and refine.refine(prog["src"], base, timeout=25)["status"] == "closed":
+            ref_ps = ps_
     except Exception:
         ref_ps = None
     # (empty chunks are only defined for parsers whose feed starts with the end check)
